@@ -5,7 +5,7 @@ From RbxVerif Require Import Base Bytes XmlEvents XmlValues.
 Import ListNotations.
 Open Scope N_scope.
 
-Ltac ndm := zify; Z.div_mod_to_equations; lia.
+Ltac ndm := zify; Z.to_euclidean_division_equations; lia.
 
 Definition sextets : list N := List.map N.of_nat (seq 0 64).
 
